@@ -107,7 +107,7 @@ class C07(Check):
         out.label(*["chain:" + f for f in set(fams)])
         out.sample = {"chains": fams, "header": case["header"], "password": pw is not None, "kinds": kinds, "target": case["target"]}
         env.state["k"] += 1
-        work = os.path.join(env.scratch, "c7-%d" % env.state["k"])
+        work = env.tmpdir("c7-")
         src = os.path.join(work, "src")
         os.makedirs(src)
         tgt = arch.Target(case["target"], work)
